@@ -49,3 +49,12 @@ chk("C18", "metamorphic PBT: base program vs annotated variant (Comment/Assert c
     "Annotations with texts biased to line breaks, quotes, `//`, `;`, pragmas, label-like and opcode-like content are inserted at random positions of a generated program; after comment removal, label alpha-renaming and removal of Nonce's push-and-pop the instruction streams must coincide (differences that vanish under jump threading are counted as layout-only), every line of the annotated text must lex, and behaviour on generated inputs must be identical.",
     "Trusts vf/teal/parser.py tokenizer and vf/teal/canon.py normal forms; vf/avm for the behavioural comparison.",
     "DESIGN.md section 2 C18")
+
+chk("C06", "PBT over ARC-4 type shapes/values/construction plans: PyTeal program assembles the value with set(...) and logs encode(); differential against algosdk.abi reference codec; type string/length/dynamic-ness compared too",
+    "Generated nested type shapes (bool runs, dynamic members in every position, boundary-sized static members, named tuples) with boundary-biased values are assembled from parts in every documented way (Python literals, expressions, application arguments, copies, Byte sequences) in the main routine and inside subroutines (frame cells); the logged encoding must equal algosdk's, out-of-range integers must be rejected / fail, and the emitted TEAL must be legal.",
+    "Trusts algosdk.abi as the ARC-4 reference, vf/avm and the C04 static predicate.",
+    "DESIGN.md section 2 C06")
+chk("C07", "PBT: reference encodings (algosdk) decoded by PyTeal programs along generated access paths (tuple index, named field, constant/computed array index) and compared with the reference component; out-of-range indices must fail",
+    "For generated (type, value, access path) triples the algosdk encoding is fed as an application argument; decode + element access + get()/length()/encode() must log exactly the component's reference encoding, for both back-ends and several versions; computed indices past the end must make the run fail (finding F10 lists the element kinds for which PyTeal does not check).",
+    "Trusts algosdk.abi as the ARC-4 reference, vf/avm and the C04 static predicate.",
+    "DESIGN.md section 2 C07")
